@@ -20,6 +20,10 @@ pub struct Cone {
   pub az: Vec<f64>,
   /// interior witnesses: (fraction of the radius, azimuth)
   pub interior: Vec<(f64, f64)>,
+  /// absolute witness points (used if they lie inside the cone): the point the rim was aimed at
+  /// and its immediate surroundings, for the class "rim_through_point"
+  #[serde(default)]
+  pub extra: Vec<(f64, f64)>,
 }
 
 pub fn thresholds() -> &'static [f64; 30] {
@@ -87,14 +91,60 @@ pub fn depth_for(radius: f64, budget: f64) -> BoxedStrategy<(u8, u8)> {
     .boxed()
 }
 
+/// Radius specification: a value, or "the rim passes through (or within a relative eps of) a
+/// given point": a pole, a cell vertex / centre of some depth, any position of the shared generator.
+#[derive(Clone, Debug)]
+enum RSpec {
+  Value(f64, String),
+  Through((f64, f64), f64),
+}
+
+fn rspec() -> BoxedStrategy<RSpec> {
+  let target = prop_oneof![
+    2 => any::<bool>().prop_map(|s| (0.0, if s { -crate::model::geom::HALF_PI } else { crate::model::geom::HALF_PI })),
+    5 => gens::position().prop_map(|p| (p.lon, p.lat)),
+  ];
+  let eps = prop_oneof![
+    2 => Just(0.0f64),
+    6 => (prop::sample::select(vec![1e-15f64, 1e-12, 1e-9, 1e-7, 3e-7, 1e-6, 1e-4]), any::<bool>()).prop_map(|(e, neg)| if neg { -e } else { e }),
+  ];
+  prop_oneof![
+    5 => radius().prop_map(|(r, c)| RSpec::Value(r, c)),
+    1 => (target, eps).prop_map(|(t, e)| RSpec::Through(t, e)),
+  ]
+  .boxed()
+}
+
 pub fn cone() -> BoxedStrategy<Cone> {
-  (radius(), gens::position_principal(), prop_oneof![6 => Just(48.0f64), 1 => Just(200.0f64)])
-    .prop_flat_map(|((r, rc), pos, budget)| {
+  (rspec(), gens::position_principal(), prop_oneof![6 => Just(48.0f64), 1 => Just(200.0f64)])
+    .prop_flat_map(|(rs, pos, budget)| {
+      let (r, rc, extra) = match rs {
+        RSpec::Value(r, c) => (r, c, vec![]),
+        RSpec::Through((tl, tb), eps) => {
+          let dist = crate::model::geom::ang_dist(pos.lon, pos.lat, tl, tb);
+          let r = dist * (1.0 + eps);
+          if !(r > 1e-9) || r > PI {
+            (1e-3, "log_uniform".to_string(), vec![])
+          } else {
+            // the aimed point and 8 points at ~1e-10 r around it (several of the cells meeting there)
+            let e = 1e-10 * r;
+            let c = tb.cos().max(1e-6);
+            let mut extra = vec![(tl, tb)];
+            for (a, b) in [(1.0, 0.0), (-1.0, 0.0), (0.0, 1.0), (0.0, -1.0), (1.0, 1.0), (1.0, -1.0), (-1.0, 1.0), (-1.0, -1.0)] {
+              let bb: f64 = tb + b * e;
+              if bb.abs() <= crate::model::geom::HALF_PI {
+                extra.push((tl + a * e / c, bb));
+              }
+            }
+            (r, "rim_through_point".to_string(), extra)
+          }
+        }
+      };
       (depth_for(r, budget), prop::collection::vec(0.0f64..(2.0 * PI), 8..20), prop::collection::vec((0.0f64..1.0, 0.0f64..(2.0 * PI)), 8..24)).prop_map(move |((depth, delta), mut az, interior)| {
         for k in 0..16 {
           az.push(k as f64 * PI / 8.0);
         }
-        Cone { depth, delta, lon: pos.lon, lat: pos.lat, radius: r, radius_class: rc.clone(), center_class: pos.class.clone(), az, interior }
+        Cone { depth, delta, lon: pos.lon, lat: pos.lat, radius: r, radius_class: rc.clone(), center_class: pos.class.clone(), az, interior, extra: extra.clone() }
       })
     })
     .boxed()
